@@ -1,5 +1,4 @@
-import Dbg.Lemmas.Final
-import Dbg.Spec.C01
+import Dbg.Props.C01
 /-! # C02 — Nodes are exactly the maximal unbranched paths
 
 Proved (ids): two ids share a node of the model iff they are connected by links of `linkOf T` — the
@@ -21,5 +20,50 @@ theorem C02_components {T : Table D} {K : Nat} {st : Bool} {join : D → D → B
 theorem C02_link_sym {T : Table D} {K : Nat} {st : Bool} {join : D → D → Bool}
     (wf : WF T K st) (hes : ExtSym T st) (hj : ∀ a b, join a b = join b a) :
     Walk.Sym (linkOf T st join) := linkOf_sym wf hes hj
+
+/-- **C02 (sequences).** Two table k-mers (ids `x`, `y`) have their canonical forms among the k-mers of the same node
+    sequence produced by the model of `compress_kmers` iff they are connected by good links. -/
+theorem C02_components_seq {T : Table D} {K : Nat} {st : Bool} {join : D → D → Bool} (reduce : D → D → D)
+    (wf : WF T K st) (hes : ExtSym T st) (hj : ∀ a b, join a b = join b a) :
+    ∃ out, compressKmersC T st join reduce = some out ∧
+      ∀ x y, x < T.length → y < T.length →
+        (Walk.Conn (linkOf T st join) x y ↔
+          ∃ n ∈ out, keyOf T x ∈ (windowsOf K n.1.seq).map (fun w => (canonOf st w).1) ∧
+                     keyOf T y ∈ (windowsOf K n.1.seq).map (fun w => (canonOf st w).1)) := by
+  obtain ⟨out, h1, h2, h3⟩ := C01_nodes_are_id_paths (join := join) reduce wf hes
+  refine ⟨out, h1, ?_⟩
+  intro x y hx hy
+  have hc := (compress_components_concrete wf hes hj).2.2.1 x y hx
+  -- keys are distinct, so membership of a key in a node's key list is membership of the id in its id list
+  have key_inj : ∀ (ids : List Nat) (z : Nat), z < T.length → (∀ i ∈ ids, i < T.length) →
+      (keyOf T z ∈ ids.map (keyOf T) ↔ z ∈ ids) := by
+    intro ids z hz hr
+    constructor
+    · intro hm
+      obtain ⟨i, hi, he⟩ := List.mem_map.mp hm
+      have hil := hr i hi
+      have : i = z := wf.distinct i z T[i] T[z] (by simp [hil]) (by simp [hz]) (by simpa [keyOf, hil, hz] using he)
+      rw [← this]; exact hi
+    · intro hm; exact List.mem_map.mpr ⟨z, hm, rfl⟩
+  -- ids of every node are in range
+  have hrange : ∀ n ∈ out, ∀ i ∈ n.2, i < T.length := by
+    intro n hn i hi
+    have hcov := (compress_components_concrete wf hes hj).2.1 i
+    apply hcov.mp
+    rw [← h2]
+    exact List.mem_flatten.mpr ⟨n.2, List.mem_map.mpr ⟨n, hn, rfl⟩, hi⟩
+  rw [hc]
+  constructor
+  · rintro ⟨N, hN, hxN, hyN⟩
+    rw [← h2] at hN
+    obtain ⟨n, hn, rfl⟩ := List.mem_map.mp hN
+    refine ⟨n, hn, ?_, ?_⟩
+    · rw [h3 n hn]; exact (key_inj n.2 x hx (hrange n hn)).mpr hxN
+    · rw [h3 n hn]; exact (key_inj n.2 y hy (hrange n hn)).mpr hyN
+  · rintro ⟨n, hn, hxn, hyn⟩
+    rw [h3 n hn] at hxn hyn
+    refine ⟨n.2, by rw [← h2]; exact List.mem_map.mpr ⟨n, hn, rfl⟩, ?_, ?_⟩
+    · exact (key_inj n.2 x hx (hrange n hn)).mp hxn
+    · exact (key_inj n.2 y hy (hrange n hn)).mp hyn
 
 end Compress
